@@ -282,6 +282,10 @@ class ManageSieveConnection:
             return Response(Condition.NO, text='Bad command.')
         resp = Response(Condition.OK)
         await self._write_response(resp)
+        # Anything received in plain text behind the STARTTLS command must
+        # not be interpreted once TLS is active (RFC 5804 section 2.2).
+        # StreamReader has no public way to drop what it has buffered.
+        self.reader._buffer.clear()  # type: ignore[attr-defined]
         await self.writer.start_tls(ssl_context)
         self._print('%d <->| %s', b'<TLS handshake>')
         self._offer_starttls = False
